@@ -259,7 +259,7 @@ def _mk_pipeline(family):
                      "unregistered near-miss names (case, prefix, suffix, other namespace) run nothing and yield a "
                      "not-found client fault")
     def ob(c):
-        names = ['m', 'other'] + NEAR_MISS + (['{urn:other}m'] if family in ('soap11', 'xml', 'json', 'yaml', 'msgpack') else [])
+        names = ['m', 'other'] + NEAR_MISS + (['{urn:other}m'] if family in ('soap11', 'xml', 'json', 'yaml', 'msgpack', 'msgpackrpc') else [])
         if family in ('json', 'yaml', 'msgpack'):
             names += ['{%s}m' % TNS + 'x', '{}m', '}m', '{urn:other}other']
         if family == 'soap11':
@@ -270,6 +270,9 @@ def _mk_pipeline(family):
             # the property speaks of names "qualified with a different namespace", and Spyne reads an unqualified name
             # as a name of the target namespace in every protocol (generate_method_contexts)
             names += ['{urn:other}m/as_default_namespace', '__tns_as_default_namespace__']
+        if family == 'msgpackrpc':
+            # the name as a byte string that is not text: a registered name with stray bytes before, inside or after it
+            names += [b'm\xff', b'\xffm', b'm\xc3', b'ot\xfeher', b'\xfe']
         name = c.choose(names, 'requested_name')
         h = Harness(c, family, user_outcomes=['return'])
         method, path, qs, body, ctype = requests_for(family)['valid'][:5]
@@ -284,6 +287,9 @@ def _mk_pipeline(family):
         elif family == 'msgpack':
             import msgpack
             body = msgpack.packb({name.encode('utf8'): {b'i': 5}})
+        elif family == 'msgpackrpc':
+            import msgpack
+            body = msgpack.packb([0, 1, name, [5]])
         elif family == 'soap11' and name.startswith('__') and name != '__tns_as_default_namespace__':
             # a header block that quotes another message (with a soap Body of its own): only the envelope's own Body
             # names the method
@@ -331,7 +337,7 @@ def _mk_pipeline(family):
     return ob
 
 
-for _f in ('http', 'json', 'yaml', 'msgpack', 'soap11', 'xml'):
+for _f in ('http', 'json', 'yaml', 'msgpack', 'msgpackrpc', 'soap11', 'xml'):
     _mk_pipeline(_f)
 
 
